@@ -75,6 +75,12 @@ pub fn run(args: &Args) -> i32 {
             kind = if horizontal { "sweep-h" } else { "sweep-v" };
         } else {
             opts.size_class = match rng.below(6) { 0 => 0, 1 | 2 | 3 => 1, 4 => 2, _ => 3 };
+            if rng.chance(1, 3) {
+                // whole i16 range, no transforms: the predictors' own arithmetic (n + w - nw etc.) must
+                // not be done in 16 bits
+                opts.narrow_full_range = true;
+                kind = "random-i16range";
+            }
         }
         let mut img = None;
         for _ in 0..40 {
